@@ -606,132 +606,280 @@ func (c *Ctx) errNotSwallowedCallsX(rule string, fns []*ssa.Function, pickCall f
 				r.Bad(rule, cons, p.InstrPos(call), "the error result is discarded")
 				return
 			}
-			aliases := append(eng.ValueAliases(errV), errV)
-			isErr := func(v ssa.Value) bool {
-				for _, a := range aliases {
-					if v == a {
+			okMsg, badAt, badMsg := c.errFate(fn, errV, allowExcuse, misreport, short, call, consequence, 0)
+			if okMsg != "" {
+				r.Ok(rule, cons, p.InstrPos(call), "%s", okMsg)
+			} else {
+				r.Bad(rule, cons, p.InstrPos(badAt), "%s", badMsg)
+			}
+		})
+	}
+	return n
+}
+
+// errFate decides what becomes of the error value errV inside fn: "" and a site when some
+// return on its non-nil edge can report success (or misreports it), otherwise a description of
+// why it is safe. origin is the call whose failure is being followed (for the messages).
+func (c *Ctx) errFate(fn *ssa.Function, errV ssa.Value, allowExcuse bool, misreport func(ret *ssa.Return) string, short string, origin ssa.Instruction, consequence string, depth int) (okMsg string, badAt ssa.Instruction, badMsg string) {
+	p := c.P
+	aliases := append(eng.ValueAliases(errV), errV)
+	isErr := func(v ssa.Value) bool {
+		for _, a := range aliases {
+			if v == a {
+				return true
+			}
+		}
+		return false
+	}
+	excuse := func(b *ssa.BasicBlock, k int) bool {
+		if !allowExcuse {
+			return false
+		}
+		if rel, ok := eng.EdgeRel(b, k); ok && rel.Op == token.EQL && (isErr(rel.X) || isErr(rel.Y)) && !eng.IsNilConst(rel.X) && !eng.IsNilConst(rel.Y) {
+			return true
+		}
+		if v, pol, ok := eng.CondTruth(b, k); ok && pol {
+			if cc, ok := v.(*ssa.Call); ok {
+				switch eng.CalleeName(cc.Common()) {
+				case "os.IsNotExist", "errors.Is":
+					return len(cc.Call.Args) > 0 && isErr(cc.Call.Args[0])
+				}
+			}
+		}
+		return false
+	}
+	var starts []*ssa.BasicBlock
+	startPred := map[*ssa.BasicBlock]*ssa.BasicBlock{}
+	for _, b := range fn.Blocks {
+		for k := 0; k < len(b.Succs) && len(b.Succs) == 2; k++ {
+			rel, ok := eng.EdgeRel(b, k)
+			if !ok || rel.Op != token.NEQ {
+				continue
+			}
+			x, y := rel.X, rel.Y
+			if eng.IsNilConst(x) {
+				x, y = y, x
+			}
+			if eng.IsNilConst(y) && isErr(x) {
+				starts = append(starts, b.Succs[k])
+				startPred[b.Succs[k]] = b
+			}
+		}
+	}
+	// a chained error variable (`err = a(); if err == nil { err = b() }; if err != nil {…}`):
+	// the failure edge of a() enters a block whose φ takes a()'s error from that edge;
+	// a test of that φ in the same block has only its non-nil outcome on this path
+	phiEdgeOK := func(b *ssa.BasicBlock, k int) bool {
+		pred, isStart := startPred[b]
+		if !isStart || len(b.Succs) != 2 {
+			return true
+		}
+		rel, ok := eng.EdgeRel(b, k)
+		if !ok || (rel.Op != token.NEQ && rel.Op != token.EQL) {
+			return true
+		}
+		x, y := rel.X, rel.Y
+		if eng.IsNilConst(x) {
+			x, y = y, x
+		}
+		ph, isPhi := x.(*ssa.Phi)
+		if !eng.IsNilConst(y) || !isPhi || ph.Block() != b {
+			return true
+		}
+		for i, pb := range b.Preds {
+			if pb == pred && i < len(ph.Edges) && isErr(ph.Edges[i]) {
+				return rel.Op == token.NEQ
+			}
+		}
+		return true
+	}
+	// lenient mode (handlers whose not-found and failure answers are decided path-sensitively by
+	// another rule): a branch whose condition this search cannot interpret — a φ (the && / ||
+	// of a tagless switch), the verdict of a helper that was given the error, or a nil test of
+	// the value that came with the error — is not walked through; only plainly wrong code (the
+	// failure branch emptied, the error dropped) is reported here
+	opaque := func(b *ssa.BasicBlock) bool {
+		if !c.errLenient || len(b.Succs) != 2 {
+			return false
+		}
+		iff := eng.IfOf(b)
+		if iff == nil {
+			return false
+		}
+		var leaves []ssa.Value
+		var walkCond func(v ssa.Value, d int)
+		walkCond = func(v ssa.Value, d int) {
+			if d > 4 {
+				return
+			}
+			switch x := v.(type) {
+			case *ssa.BinOp:
+				walkCond(x.X, d+1)
+				walkCond(x.Y, d+1)
+			case *ssa.UnOp:
+				if x.Op == token.NOT {
+					walkCond(x.X, d+1)
+					return
+				}
+				leaves = append(leaves, v)
+			default:
+				leaves = append(leaves, v)
+			}
+		}
+		walkCond(iff.Cond, 0)
+		for _, lv := range leaves {
+			switch x := lv.(type) {
+			case *ssa.Phi:
+				if isBool(x.Type()) {
+					return true
+				}
+			case *ssa.Call:
+				for _, a := range x.Call.Args {
+					if isErr(a) {
 						return true
 					}
 				}
-				return false
-			}
-			excuse := func(b *ssa.BasicBlock, k int) bool {
-				if !allowExcuse {
-					return false
-				}
-				if rel, ok := eng.EdgeRel(b, k); ok && rel.Op == token.EQL && (isErr(rel.X) || isErr(rel.Y)) && !eng.IsNilConst(rel.X) && !eng.IsNilConst(rel.Y) {
+			case *ssa.Extract:
+				if ev, ok := errV.(*ssa.Extract); ok && x.Tuple == ev.Tuple && x.Index != ev.Index {
 					return true
 				}
-				if v, pol, ok := eng.CondTruth(b, k); ok && pol {
-					if cc, ok := v.(*ssa.Call); ok {
-						switch eng.CalleeName(cc.Common()) {
-						case "os.IsNotExist", "errors.Is":
-							return len(cc.Call.Args) > 0 && isErr(cc.Call.Args[0])
+				if hc, ok := x.Tuple.(*ssa.Call); ok {
+					for _, a := range hc.Call.Args {
+						if isErr(a) {
+							return true
 						}
 					}
 				}
-				return false
 			}
-			var starts []*ssa.BasicBlock
-			startPred := map[*ssa.BasicBlock]*ssa.BasicBlock{}
-			for _, b := range fn.Blocks {
-				for k := 0; k < len(b.Succs) && len(b.Succs) == 2; k++ {
-					rel, ok := eng.EdgeRel(b, k)
-					if !ok || rel.Op != token.NEQ {
-						continue
-					}
-					x, y := rel.X, rel.Y
-					if eng.IsNilConst(x) {
-						x, y = y, x
-					}
-					if eng.IsNilConst(y) && isErr(x) {
-						starts = append(starts, b.Succs[k])
-						startPred[b.Succs[k]] = b
-					}
+		}
+		return false
+	}
+	if len(starts) == 0 {
+		if errV.Referrers() != nil {
+			for _, ref := range *errV.Referrers() {
+				if _, isRet := ref.(*ssa.Return); isRet {
+					return "the error is returned to the caller", nil, ""
 				}
 			}
-			// a chained error variable (`err = a(); if err == nil { err = b() }; if err != nil {…}`):
-			// the failure edge of a() enters a block whose φ takes a()'s error from that edge;
-			// a test of that φ in the same block has only its non-nil outcome on this path
-			phiEdgeOK := func(b *ssa.BasicBlock, k int) bool {
-				pred, isStart := startPred[b]
-				if !isStart || len(b.Succs) != 2 {
-					return true
-				}
-				rel, ok := eng.EdgeRel(b, k)
-				if !ok || (rel.Op != token.NEQ && rel.Op != token.EQL) {
-					return true
-				}
-				x, y := rel.X, rel.Y
-				if eng.IsNilConst(x) {
-					x, y = y, x
-				}
-				ph, isPhi := x.(*ssa.Phi)
-				if !eng.IsNilConst(y) || !isPhi || ph.Block() != b {
-					return true
-				}
-				for i, pb := range b.Preds {
-					if pb == pred && i < len(ph.Edges) && isErr(ph.Edges[i]) {
-						return rel.Op == token.NEQ
+		}
+		// handed to a helper of the module whose result this function returns: the helper
+		// decides what the caller is told
+		if depth < 3 {
+			if okMsg, badAt, badMsg, found := c.errFateViaHelper(fn, isErr, allowExcuse, misreport, short, origin, consequence, depth); found {
+				return okMsg, badAt, badMsg
+			}
+		}
+		if c.errLenient && errV.Referrers() != nil {
+			for _, ref := range *errV.Referrers() {
+				if hc, ok := ref.(*ssa.Call); ok {
+					if g := eng.StaticCallee(hc.Common()); g != nil && eng.InModule(g) {
+						return "the error is classified by " + shortFn(g) + "; what the handler answers in each case is decided by the not-found rule", nil, ""
 					}
 				}
-				return true
 			}
-			if len(starts) == 0 {
-				if errV.Referrers() != nil {
-					for _, ref := range *errV.Referrers() {
-						if _, isRet := ref.(*ssa.Return); isRet {
-							r.Ok(rule, cons, p.InstrPos(call), "the error is returned to the caller")
-							return
-						}
-					}
-				}
-				r.Bad(rule, cons, p.InstrPos(call), "the error is never tested against nil: a failed %s is treated like a success", short)
-				return
-			}
-			succRet := func(in ssa.Instruction) bool {
+		}
+		return "", origin, fmt.Sprintf("the error is never tested against nil: a failed %s is treated like a success", short)
+	}
+	succRet := func(in ssa.Instruction) bool {
+		ret, ok := in.(*ssa.Return)
+		if !ok || eng.IsRecoverBlock(ret.Block()) {
+			return false
+		}
+		res := eng.ReturnResults(ret)
+		if len(res) == 0 {
+			return true
+		}
+		e := res[len(res)-1]
+		if isErr(e) || isErr(eng.ResolveLocalLoad(e)) {
+			return false // hands back the very error whose failure edge this is
+		}
+		return !(definitelyNonNilErr(e) || eng.KnownNonNil(e, ret.Block()))
+	}
+	for _, st := range starts {
+		if bad := (&eng.Search{Target: succRet, Edge: func(b *ssa.BasicBlock, k int) bool { return !excuse(b, k) && phiEdgeOK(b, k) && !opaque(b) }}).FromBlockStart(st); bad != nil {
+			return "", bad, fmt.Sprintf("when %s at %s fails, %s can still report success here: %s", short, p.InstrPos(origin), shortFn(fn), consequence)
+		}
+		if misreport != nil {
+			why := ""
+			mis := func(in ssa.Instruction) bool {
 				ret, ok := in.(*ssa.Return)
 				if !ok || eng.IsRecoverBlock(ret.Block()) {
 					return false
 				}
-				res := eng.ReturnResults(ret)
-				if len(res) == 0 {
+				if w := misreport(ret); w != "" {
+					why = w
 					return true
 				}
-				e := res[len(res)-1]
-				if isErr(e) || isErr(eng.ResolveLocalLoad(e)) {
-					return false // hands back the very error whose failure edge this is
-				}
-				return !(definitelyNonNilErr(e) || eng.KnownNonNil(e, ret.Block()))
+				return false
 			}
-			for _, st := range starts {
-				if bad := (&eng.Search{Target: succRet, Edge: func(b *ssa.BasicBlock, k int) bool { return !excuse(b, k) && phiEdgeOK(b, k) }}).FromBlockStart(st); bad != nil {
-					r.Bad(rule, cons, p.InstrPos(bad), "when %s at %s fails, %s can still report success here: %s", short, p.InstrPos(call), shortFn(fn), consequence)
-					return
+			if bad := (&eng.Search{Target: mis, Edge: func(b *ssa.BasicBlock, k int) bool { return !excuse(b, k) && phiEdgeOK(b, k) && !opaque(b) }}).FromBlockStart(st); bad != nil {
+				return "", bad, fmt.Sprintf("when %s at %s fails, %s %s: %s", short, p.InstrPos(origin), shortFn(fn), why, consequence)
+			}
+		}
+	}
+	return "every return on the failure edge reports an error", nil, ""
+}
+
+// errFateViaHelper: the error (or a variable that holds it on some path) is an argument of a
+// call to a module function whose result fn returns; the verdict is then the helper's.
+func (c *Ctx) errFateViaHelper(fn *ssa.Function, isErr func(ssa.Value) bool, allowExcuse bool, misreport func(ret *ssa.Return) string, short string, origin ssa.Instruction, consequence string, depth int) (okMsg string, badAt ssa.Instruction, badMsg string, found bool) {
+	carries := func(v ssa.Value) bool {
+		if isErr(v) {
+			return true
+		}
+		if ph, ok := v.(*ssa.Phi); ok {
+			for _, e := range ph.Edges {
+				if isErr(e) {
+					return true
 				}
-				if misreport != nil {
-					why := ""
-					mis := func(in ssa.Instruction) bool {
-						ret, ok := in.(*ssa.Return)
-						if !ok || eng.IsRecoverBlock(ret.Block()) {
-							return false
-						}
-						if w := misreport(ret); w != "" {
-							why = w
-							return true
-						}
-						return false
-					}
-					if bad := (&eng.Search{Target: mis, Edge: func(b *ssa.BasicBlock, k int) bool { return !excuse(b, k) && phiEdgeOK(b, k) }}).FromBlockStart(st); bad != nil {
-						r.Bad(rule, cons, p.InstrPos(bad), "when %s at %s fails, %s %s: %s", short, p.InstrPos(call), shortFn(fn), why, consequence)
+			}
+		}
+		return false
+	}
+	var hit *ssa.Call
+	var prm *ssa.Parameter
+	eng.EachInstr(fn, func(in ssa.Instruction) {
+		hc, ok := in.(*ssa.Call)
+		if !ok || hit != nil {
+			return
+		}
+		g := eng.StaticCallee(hc.Common())
+		if g == nil || !eng.InModule(g) || len(g.Blocks) == 0 {
+			return
+		}
+		for i, a := range hc.Call.Args {
+			if carries(a) && i < len(g.Params) {
+				// fn must return what the helper returns
+				returned := false
+				eng.EachInstr(fn, func(x ssa.Instruction) {
+					ret, isRet := x.(*ssa.Return)
+					if !isRet {
 						return
 					}
+					for _, rv := range eng.ReturnResults(ret) {
+						if rv == ssa.Value(hc) {
+							returned = true
+						}
+						if ex, isEx := rv.(*ssa.Extract); isEx && ex.Tuple == ssa.Value(hc) {
+							returned = true
+						}
+					}
+				})
+				if returned {
+					hit, prm = hc, g.Params[i]
 				}
 			}
-			r.Ok(rule, cons, p.InstrPos(call), "every return on the failure edge reports an error")
-		})
+		}
+	})
+	if hit == nil {
+		return "", nil, "", false
 	}
-	return n
+	g := eng.StaticCallee(hit.Common())
+	okMsg, badAt, badMsg = c.errFate(g, prm, allowExcuse, misreport, short, origin, consequence, depth+1)
+	if okMsg != "" {
+		okMsg = "handed to " + shortFn(g) + ", whose verdict the function returns: " + okMsg
+	}
+	return okMsg, badAt, badMsg, true
 }
 
 func (c *Ctx) c10NoMemory(pm *pairModel, storeT, mboxT *types.Named, readIndex *ssa.Function, fLoaded *types.Var) {
